@@ -74,7 +74,8 @@ def _dyn_kind(name, family, charset=None, use_cal=False, slope=8, intercept=0, t
 
 def _lookup_kind(name, family, core=False):
     def build(tag, ctx):
-        lk = Lookup((((Cmp("SEQ_FLGS", "==", "3"), Cmp("TYPE", "==", "0")), 16.0), ((Cmp("PKT_APID", ">=", "1"),), 8.0),
+        # the first entry yields 0 bits (no payload) for the second packet of a stream; it matches before the others
+        lk = Lookup((((Cmp("SRC_SEQ_CTR", "==", "1"),), 0.0), ((Cmp("SEQ_FLGS", "==", "3"), Cmp("TYPE", "==", "0")), 16.0), ((Cmp("PKT_APID", ">=", "1"),), 8.0),
                      ((Cmp("PKT_APID", "==", "0"),), 24.0)))
         pt = PType(f"T_{tag}", "String", StrEnc(lk, "ISO-8859-1")) if family == "str" else PType(f"T_{tag}", "Binary", BinEnc(lk))
         return Built([pt], [(f"F_{tag}", pt.name)], None)
